@@ -41,4 +41,5 @@ def run(ctx):
                 ctx.broken.append(dict(kind="correspondence", what="model and implementation disagree",
                                        detail=mp.surface.to_python(progs[dis[0]])))
     mp.standard_cov(ctx, progs, results, len(tg))
-    return vlib.finish(ctx)
+    ctx.cov['disagreements_checked'] = len(progs)
+    return vlib.finish(ctx, level='translation_validation')
